@@ -23,13 +23,25 @@ func normName(full string) string {
 }
 
 func (vc *VC) watched(full string) (string, bool) {
-	n := normName(full)
 	for w := range vc.watch {
-		if n == w || strings.HasSuffix(n, "."+w) {
+		if matchWatch(w, full) {
 			return w, true
 		}
 	}
 	return "", false
+}
+
+// matchWatch: does the event name full (callee, value or "send:"+channel name) match watch name w?
+func matchWatch(w, full string) bool {
+	ws, fs := strings.HasPrefix(w, "send:"), strings.HasPrefix(full, "send:")
+	if ws != fs {
+		return false
+	}
+	if ws {
+		w, full = w[5:], full[5:]
+	}
+	n := normName(full)
+	return n == w || strings.HasSuffix(n, "."+w)
 }
 
 // noteEvent records a call event for the ghost vocabulary called/ncalls/lastarg/lastret.
@@ -58,6 +70,7 @@ func (f *frame) noteEvent(kind string, callee any, args []Term, results []Term) 
 func (f *frame) recordEvent(w string, args, results []Term) {
 	vc := f.vc
 	f.st.set("G$called$"+w, tTrue)
+	f.st.set("G$tainted$"+w, tFalse)
 	n := f.st.get("G$ncalls$"+w, SBV64)
 	f.st.set("G$ncalls$"+w, vc.define("G$ncalls$"+w, bvAdd(n, i64(1))))
 	for i, a := range args {
@@ -170,6 +183,16 @@ func (f *frame) doCall(c *ssa.CallCommon, pos token.Pos, site ssa.Instruction) [
 		f.oblige("nil", pos, mkNot(mkEq(fv, i64(0))))
 		if ok := isAssumedPure(valueName(c.Value)); ok {
 			vc.trust("callback assumed pure: " + valueName(c.Value))
+			if ws := assumedWritesOf(valueName(c.Value)); len(ws) > 0 {
+				vc.trust("callback " + valueName(c.Value) + " assumed to write only heaps named " + strings.Join(ws, ", "))
+				hs := vc.havocSome(f.st, map[string]bool{"$alloc": true})
+				hs.modPrefixes = ws
+				f.st = hs
+				vc.noteWrite("$alloc")
+				for _, w := range ws {
+					vc.noteWrite("prefix:" + w)
+				}
+			}
 			n := sig.Results().Len()
 			rs := make([]Term, n)
 			for i := 0; i < n; i++ {
@@ -297,7 +320,7 @@ func (f *frame) inlineImpl(fn *ssa.Function, argVals []ssa.Value, argTerms []Ter
 	vc.names["inl"]++
 	g := &frame{vc: vc, fn: fn, prefix: fmt.Sprintf("%si%d$", f.prefix, vc.names["inl"]), depth: f.depth + 1,
 		vals: map[ssa.Value]Term{}, ptrs: map[ssa.Value]*ptrDesc{}, tuples: map[ssa.Value][]Term{}, closures: map[ssa.Value]*ssa.MakeClosure{},
-		label: f.label, inlined: normName(fn.String())}
+		label: f.label, inlined: normName(fn.String()), oldSt: f.st}
 	if argVals != nil && len(argVals) != len(fn.Params) || argVals == nil && len(argTerms) != len(fn.Params) {
 		unsup("arity mismatch inlining %s", fn)
 	}
@@ -383,6 +406,9 @@ func (f *frame) havocCall(callee *ssa.Function, sig *types.Signature, argVals []
 	var mods map[string]bool
 	if callee != nil && !unknown {
 		mods = vc.P.modSet(callee)
+	}
+	if callee != nil && !f.noTaint {
+		f.taintEvents([]*ssa.Function{callee}, nil)
 	}
 	// closures passed as arguments may be invoked: their effects are included
 	for _, a := range argVals {
@@ -558,17 +584,31 @@ func (f *frame) appendOp(c *ssa.CallCommon, pos token.Pos) Term {
 	nobj := f.alloc(units)
 	vc.assume(ule(i64(4096), nobj))
 	dobj := vc.define(f.prefix+"app$obj", mkIte(fits, slObj(s), nobj))
+	if !isStructType(el) {
+		// Reallocation: the new object's inner array is a copy of the old object's whole inner
+		// array and the slice keeps its offset inside it (contents beyond the capacity are junk
+		// either way), so no range copy is needed.
+		hn, hs := tt.elemHeap(el)
+		h := f.st.get(hn, hs)
+		es := tt.sortOf(el)
+		inner := arraySort(SBV64, es)
+		copied := vc.define(hn, mkIte(fits, h, mkStore(h, nobj, mkSelect(h, slObj(s), inner))))
+		f.st.set(hn, copied)
+		doff := slOff(s)
+		if !fromStr {
+			f.copyRange(dobj, bvAdd(doff, slLen(s)), slObj(t), slOff(t), n, el)
+		} else {
+			h2 := f.st.get(hn, hs)
+			f.st.set(hn, vc.blockCopy(hn, h2, vc.smem(), dobj, bvAdd(doff, slLen(s)), strPtr(t), n))
+		}
+		vc.assume(mkImplies(mkNot(fits), sle(bvAdd(doff, ncap), bvLit(64, 1<<41))))
+		return mkSlice(dobj, doff, newLen, mkIte(fits, slCap(s), ncap))
+	}
 	doff := vc.define(f.prefix+"app$off", mkIte(fits, slOff(s), i64(0)))
 	// copy old contents when reallocating (length 0 when it fits)
 	oldN := vc.define(f.prefix+"app$old", mkIte(fits, i64(0), slLen(s)))
 	f.copyRange(nobj, i64(0), slObj(s), slOff(s), oldN, el)
-	if !fromStr {
-		f.copyRange(dobj, bvAdd(doff, slLen(s)), slObj(t), slOff(t), n, el)
-	} else {
-		hn, hs := tt.elemHeap(el)
-		h := f.st.get(hn, hs)
-		f.st.set(hn, vc.blockCopy(hn, h, vc.smem(), dobj, bvAdd(doff, slLen(s)), strPtr(t), n))
-	}
+	f.copyRange(dobj, bvAdd(doff, slLen(s)), slObj(t), slOff(t), n, el)
 	return mkSlice(dobj, doff, newLen, mkIte(fits, slCap(s), ncap))
 }
 
@@ -803,6 +843,7 @@ func (f *frame) callConcrete(fn *ssa.Function, recv Term, c *ssa.CallCommon, pos
 		return f.inlineTerms(target, args, pos)
 	}
 	mods := vc.P.modSet(target)
+	f.taintEvents([]*ssa.Function{target}, nil)
 	if mods["*"] {
 		f.st = vc.havocAll(f.st)
 	} else if len(mods) > 0 {
@@ -831,11 +872,14 @@ func (f *frame) havocInvoke(c *ssa.CallCommon, sig *types.Signature) []Term {
 		return f.havocCall(nil, sig, c.Args, true)
 	}
 	mods := map[string]bool{}
+	var fns []*ssa.Function
 	for _, im := range impls {
+		fns = append(fns, im.fn)
 		for k := range vc.P.modSet(im.fn) {
 			mods[k] = true
 		}
 	}
+	f.taintEvents(fns, nil)
 	vc.trust("interface calls write at most what the in-repo implementations of the method write (implementations outside the repository are assumed to stay within that frame)")
 	if mods["*"] {
 		f.st = vc.havocAll(f.st)
@@ -864,4 +908,111 @@ func (f *frame) observer(m *types.Func, recv Term) Term {
 		vc.items = append(vc.items, Item{kind: itDecl, text: fmt.Sprintf("(declare-fun %s (Iface) %s)", name, rs)})
 	}
 	return app(name, rs, recv)
+}
+
+// eventNames returns the names of all call sites and channel sends reachable from fn through
+// static calls, in-repo implementations of interface methods, and closures created on the way.
+// Code outside the repository is assumed not to generate in-repo events.
+func (P *Program) eventNames(fn *ssa.Function) map[string]bool {
+	if r, ok := P.eventCache[fn]; ok {
+		return r
+	}
+	out := map[string]bool{}
+	seen := map[*ssa.Function]bool{}
+	var visit func(g *ssa.Function)
+	visit = func(g *ssa.Function) {
+		if g == nil || seen[g] || g.Blocks == nil {
+			return
+		}
+		seen[g] = true
+		if !(P.inRepo(g) || inlineLib(g)) {
+			return
+		}
+		for _, b := range g.Blocks {
+			for _, in := range b.Instrs {
+				switch x := in.(type) {
+				case *ssa.Send:
+					out["send:"+valueName(x.Chan)] = true
+				case *ssa.Select:
+					for _, st := range x.States {
+						if st.Dir == types.SendOnly {
+							out["send:"+valueName(st.Chan)] = true
+						}
+					}
+				case *ssa.MakeClosure:
+					visit(x.Fn.(*ssa.Function))
+				case *ssa.Go:
+					out["*"] = true
+				}
+				var c *ssa.CallCommon
+				switch x := in.(type) {
+				case *ssa.Call:
+					c = &x.Call
+				case *ssa.Defer:
+					c = &x.Call
+				default:
+					continue
+				}
+				if _, ok := c.Value.(*ssa.Builtin); ok {
+					continue
+				}
+				if c.IsInvoke() {
+					out["("+fullType(c.Value.Type())+")."+c.Method.Name()] = true
+					if iface, ok := c.Value.Type().Underlying().(*types.Interface); ok {
+						for _, im := range P.implementations(iface, c.Method) {
+							visit(im.fn)
+						}
+					}
+					continue
+				}
+				if callee := c.StaticCallee(); callee != nil {
+					out[callee.String()] = true
+					visit(callee)
+					continue
+				}
+				out[valueName(c.Value)] = true
+			}
+		}
+	}
+	visit(fn)
+	if P.eventCache == nil {
+		P.eventCache = map[*ssa.Function]map[string]bool{}
+	}
+	P.eventCache[fn] = out
+	return out
+}
+
+// taintEvents: a call that is not translated in place may generate watched events that are not
+// described by a contract; the ghost state of those names becomes unknown (monotonically).
+func (f *frame) taintEvents(callees []*ssa.Function, skip map[string]bool) {
+	vc := f.vc
+	for w := range vc.watch {
+		if skip[w] {
+			continue
+		}
+		may := false
+		for _, cf := range callees {
+			if cf == nil {
+				continue
+			}
+			for n := range vc.P.eventNames(cf) {
+				if n == "*" || matchWatch(w, n) {
+					may = true
+					break
+				}
+			}
+			if matchWatch(w, cf.String()) {
+				may = false // the call itself is recorded by the caller
+			}
+		}
+		if !may {
+			continue
+		}
+		d := vc.declareFresh(f.prefix+"ev$d", SBV64)
+		vc.assume(mkAnd(sle(i64(0), d), sle(d, bvLit(64, 1<<32))))
+		some := vc.define(f.prefix+"ev$some", slt(i64(0), d))
+		f.st.set("G$called$"+w, vc.define("G$called", mkOr(f.st.get("G$called$"+w, SBool), some)))
+		f.st.set("G$ncalls$"+w, vc.define("G$ncalls", bvAdd(f.st.get("G$ncalls$"+w, SBV64), d)))
+		f.st.set("G$tainted$"+w, vc.define("G$tainted", mkOr(f.st.get("G$tainted$"+w, SBool), some)))
+	}
 }
